@@ -161,7 +161,9 @@ pub fn run_cells(
     let mut weight_left = total_weight;
     for p in plans {
         let remaining = (budget_s - t0.elapsed().as_secs_f64()).max(1.0);
-        let share = remaining * p.weight / weight_left.max(1e-9);
+        // Quick cells are sized to run to completion: the budget is a cap on the whole run, not
+        // a per-cell share (a share would cap a cell on a busy machine although time is left).
+        let share = if out.tier == "quick" { remaining } else { remaining * p.weight / weight_left.max(1e-9) };
         weight_left -= p.weight;
         let b = Bounds {
             max_dev: p.max_dev,
